@@ -32,6 +32,9 @@ def handle (fn : String) (a : Lean.Json) : R Lean.Json := do
     let r := serveHttp s (← boolF a "raised")
     pure (obj [("status", ofNat r.status), ("marker", ofBool r.marker),
                ("header", Json.str VgiVerif.Gen.LogWire.markerHeader), ("value", Json.str VgiVerif.Gen.LogWire.markerValue)])
+  | "unary_body" =>
+    let c := unaryBody (← boolF a "raised") (← boolF a "over_cap")
+    pure (Json.str (match c with | .result => "result" | .implError => "impl_error" | .capError => "cap_error"))
   | "set_http_status" =>
     let r := setHttpStatus (← natF a "code")
     pure (obj [("status", ofNat r.status), ("marker", ofBool r.marker)])
